@@ -1,8 +1,10 @@
 /-
 Vocabulary for the statement skeletons of the reading side of ansi/parser.go — `Parser.readRune`,
-`Parser.print`, `Parser.emit` — regenerated into `Gen/ParserReader.lean` on every run, and the
-skeletons the model (`Model/ParserIO.lean`: `readRune`, `printLoop`, `deliver`) transcribes.
-`Props.C02Text.reader_skeleton_recognised` pins the regenerated bodies to these.  Core Lean only.
+`Parser.print`, `Parser.emit` — regenerated into `Gen/ParserReader.lean` on every run.  There is no hand copy of the bodies: the
+regenerated statement lists are *interpreted* (`Model/ParserReaderInterp.lean`) and
+`Props.C02Text.readRune_body_eq_model` / `print_body_eq_model` prove that the interpretation is the
+model (`Model/ParserIO.lean`: `readRune`, `printLoop`); `reader_skeleton_recognised` says that every
+statement was recognised.  Core Lean only.
 -/
 namespace VaxisModel.Model.ParserReaderSk
 
@@ -34,15 +36,9 @@ inductive RStmt
   | unknown (src : String)
   deriving DecidableEq, Repr, Inhabited
 
-/-- `readRune` as the model transcribes it; the flag is `Gen.ParserTable.fallbackOnlyInvalid`. -/
-def handReadRune (size1 : Bool) : List RStmt := [.readRune, .stopTimer, .fallback size1, .retEofOnErr, .retRune]
-
-/-- `print` as the model transcribes it. -/
-def handPrint : List RStmt :=
-  [.newBuilder, .writeFirst, .declLocals,
-   .whileBuffered, .peekRuneSized, .ifInvalidUnreadBreak, .writeNext, .firstCluster, .ifRestUnreadBreak, .endWhile,
-   .measureIfZero, .emitPrint]
-
-def handEmit : List RStmt := [.sendSeq]
+/-- A statement inside the vocabulary. -/
+def RStmt.known : RStmt → Bool
+  | .unknown _ => false
+  | _ => true
 
 end VaxisModel.Model.ParserReaderSk
